@@ -270,6 +270,23 @@ func Spawn(f func()) {
 // Block marks a point where the code under test would block for ever.
 func Block(what string) { panic(stop{"BLOCKED " + what}) }
 
+// BlockUntil marks a point where the caller cannot proceed until cond() holds. Under the
+// engine's cooperative scheduler (harness option "coop") the goroutine is parked and resumed
+// once the condition holds; without it the path ends like Block. Only called when Symbolic().
+func BlockUntil(cond func() bool, what string) { panic(stop{"BLOCKED " + what}) }
+
+// Guard declares the struct *obj shared state protected by the mutex mu (lock-discipline
+// monitor of the engine, engine/guard.go); nothing natively.
+func Guard(obj interface{}, mu interface{}) {}
+
+// Role(k) declares that the following code runs as concurrent role k (0: none); the engine's
+// footprint monitor (engine/guard.go) reports state written in one role and accessed in
+// another. Nothing natively.
+func Role(k int) {}
+
+// Yield is a pre-emption point of the engine's cooperative scheduler; nothing natively.
+func Yield(what string) {}
+
 func Reach(label string)   {}
 func Note(s string)        {}
 func Witness(i int)        {}
